@@ -707,6 +707,8 @@ class Interp:
                 env.vars.setdefault(n, None)
         # preconditions
         for i, r in enumerate(c.requires):
+            if "EXCLUDED REGION" in r:
+                continue  # the region of a live known finding of the CALLEE is not a precondition its callers must establish
             t = truthy(self.eval_spec(r, env))
             self.path.oblige(f"{self.cur_name}::call-pre:{fq.split(':')[-1]}#{i}", "call-pre", t, detail=r)
         olds = self.capture_olds(list((c.call_ensures if c.call_ensures is not None else c.ensures).values()) + list(c.raises_ensures.values()), env)
